@@ -22,3 +22,31 @@ def install(eng):
     # ---- spec hashes interface
     eng.contract("iface:SpecHashes.has_changed", self_type=vc.Hashes, params={"self": vc.Hashes, "target": vc.Target},
                  returns=T.Opt(vc.Hash), ensures=["(result is not None) == Changed(self, target)"], trusted=True)
+
+    # ---- path normalisation (C03, C19): string level kept abstract, os.path algebra trusted
+    eng.contract("gwf.core:_norm_path", params={"working_dir": vc.Path, "path": vc.Path}, returns=vc.Path,
+                 ensures=["result == Canon(working_dir, path)"], uses=["ospath"],
+                 serves=["C03", "C01", "C15", "C19"])
+
+    def replay_norm_path(eng, ob, model, seed):
+        """enumerative concretiser: spellings over segments {a, ., .., ''} up to 3 segments (bounded, replay only)"""
+        import itertools, os
+        from gwf.core import _norm_path
+        segs = ["a", ".", "..", "b"]
+        tried = 0
+        for wd in ("/w", "/w/d"):
+            for k in (1, 2, 3):
+                for parts in itertools.product(segs, repeat=k):
+                    for lead in ("", "/", "/w/"):
+                        p = lead + "/".join(parts)
+                        tried += 1
+                        want = os.path.normpath(os.path.join(wd, p))
+                        got = _norm_path(wd, p)
+                        if got != want:
+                            return {"failed_on_real_code": True, "witness_class": "absolute-not-normalised"
+                                    if os.path.isabs(p) else "other",
+                                    "input": {"working_dir": wd, "path": p}, "observed": got, "required": want,
+                                    "candidates_tried": tried, "call": "gwf.core._norm_path(working_dir, path)"}
+        return {"failed_on_real_code": False, "candidates_tried": tried}
+
+    eng.replayers["gwf.core:_norm_path"] = replay_norm_path
